@@ -116,7 +116,9 @@ def run(ctx):
     mx_cases, mx_metas = [], []
     for it_ in range(ctx.budget(70, 600)):
         deep = it_ % 9 == 8
-        gd = G.gen_deep_directed(rng, 400, min_layers=12) if deep else G.gen_graph(rng, cap=ctx.budget(200, 1200))
+        # every 9th graph (offset 4): one-word codes that use all 64 bits - vertex numbering must compare the int64 hashes exactly (not through float64)
+        gd = (G.gen_deep_directed(rng, 400, min_layers=12) if deep else G.gen_extreme_codes(rng, 300) if it_ % 9 == 4 else
+              G.gen_graph(rng, cap=ctx.budget(200, 1200)))
         layers, dist = G.ref_bfs(gd, [gd["central"]])
         starts = None
         if rng.random() < 0.3:
@@ -127,6 +129,8 @@ def run(ctx):
             rng.shuffle(starts)
             layers, dist = G.ref_bfs(gd, starts)
         cfgd = G.gen_config(rng, gd)
+        if it_ % 9 == 4 and not deep:
+            cfgd["bit_encoding_width"] = "auto"
         graph = G.make_graph(gd, cfgd)
         kw = {"return_all_edges": True, "return_all_hashes": True, "max_layer_size_to_store": None}
         early = rng.random() < 0.4 and len(layers) >= 3
